@@ -80,11 +80,13 @@ func runRapid(t *testing.T, sub *lab.SubCheck, name, terminal string, quick, tho
 }
 
 func TestC15StubRapid(t *testing.T) {
-	sub := lab.Sub("stub-terminal-rapid", "rapid, chain -> stub terminal handler (exact control of Header().Set / explicit or implicit WriteHeader / Write partition / declared Content-Length) behind a real http.Server, raw TCP client without auto-decoding: "+genRule)
+	sub := lab.Sub("stub-terminal-rapid", "rapid, chain -> stub terminal handler (exact control of Header().Set / explicit or implicit WriteHeader / Write partition / declared Content-Length / http.Flusher.Flush calls: none in half of the exchanges, otherwise a drawn non-empty subset of {before the first Write, after Write #i}) behind a real http.Server, raw TCP client without auto-decoding: "+genRule)
 	addFloors(sub)
 	sub.Floor("implicit-writeheader", 0.20)
 	sub.Floor("explicit-writeheader", 0.30)
 	sub.Floor("declared-content-length", 0.25)
+	sub.Floor("handler-flushes", 0.30)
+	sub.Floor("handler-never-flushes", 0.30)
 	lab.Assume("L2: the plugin chain is built by plugins.BuildChain from YAML-loaded configuration and served by a real http.Server on loopback as cmd/helios/server.go composes it; the client is a raw TCP client that decodes nothing by itself. Accept-Encoding 'lists gzip' = some element names the coding gzip (case-insensitive) with q != 0; content types are matched case-insensitively by prefix; both readings are the permissive ones, so OI fires only on responses no reading allows to be compressed. A YAML-int gzip configuration refused by BuildChain is the C18 matter (counted as gzip-int-config-rejected, the case runs with the float text).")
 	runRapid(t, sub, "stub-terminal-rapid", "stub", 8000, 60000)
 }
